@@ -25,6 +25,13 @@
 //!   relife <N> <k1>                           a helper containing fake!(.., times: N) is evaluated in two lifetimes;
 //!                                             k1 calls in the first (its verdict is ignored), exactly N in the second,
 //!                                             which must admit them all and exit silently
+//!   watch <id>                                snapshot the 16 entry bytes of <id> and forget the flushes recorded so far
+//!   flushed <id>                              every entry byte that changed since `watch`, and every byte of the trampoline
+//!                                             the entry now jumps to, must lie in a range passed to __clear_cache AFTER its
+//!                                             last write (the range's content at flush time equals the current content);
+//!                                             then re-arms the watch.  __clear_cache is interposed by this binary.
+//!   refake <target> <n>                       install <n> redirects (to fresh near fakes) on <target> through the current
+//!                                             injector, checking `flushed` after each
 //!   thread_panic <target> <fake>              in a NEW thread: create an injector, install raw, call, panic!()
 //!                                             (real unwinding with fakes installed); joined before the next op
 use injectorpp::interface::injector::*;
@@ -134,6 +141,55 @@ unsafe fn call_probe(addr: usize) -> [u64; 8] {
     out
 }
 
+/// (start, end, bytes at flush time)
+#[allow(static_mut_refs)]
+static mut FLUSHES: Vec<(usize, usize, Vec<u8>)> = Vec::new();
+
+/// Interposes the platform primitive (libgcc's is a no-op on x86-64): records what the library asks to flush.
+#[no_mangle]
+#[allow(static_mut_refs)]
+pub unsafe extern "C" fn __clear_cache(start: *mut u8, end: *mut u8) {
+    let (s, e) = (start as usize, end as usize);
+    let mut snap = Vec::new();
+    if e > s && e - s <= 4096 {
+        snap = std::slice::from_raw_parts(start as *const u8, e - s).to_vec();
+    }
+    FLUSHES.push((s, e, snap));
+}
+
+#[allow(static_mut_refs)]
+unsafe fn covered(addr: usize) -> bool {
+    let cur = *(addr as *const u8);
+    FLUSHES.iter().any(|(s, e, snap)| addr >= *s && addr < *e && snap.get(addr - *s) == Some(&cur))
+}
+
+#[allow(static_mut_refs)]
+unsafe fn check_flushed(f: usize, watch: &mut [u8; 16], ln: usize) -> bool {
+    let mut now = [0u8; 16];
+    std::ptr::copy_nonoverlapping(f as *const u8, now.as_mut_ptr(), 16);
+    for k in 0..16 {
+        if now[k] != watch[k] && !covered(f + k) {
+            println!("MISMATCH at step {ln}: entry byte +{k} changed {:#04x} -> {:#04x} but no instruction-cache flush issued after the write covers it; flushed ranges relative to the function: {:?}",
+                watch[k], now[k], FLUSHES.iter().filter(|(s, _, _)| s.abs_diff(f) < 64).map(|(s, e, _)| (*s as i64 - f as i64, *e as i64 - f as i64)).collect::<Vec<_>>());
+            return false;
+        }
+    }
+    if now[0] == 0xE9 {
+        let rel = i32::from_le_bytes([now[1], now[2], now[3], now[4]]) as i64;
+        let j = (f as i64 + 5 + rel) as usize;
+        let n = if *(j as *const u8) == 0xE9 { 5 } else if *(j as *const u8) == 0x48 && *((j + 1) as *const u8) == 0xC7 { 8 } else { 12 };
+        for k in 0..n {
+            if !covered(j + k) {
+                println!("MISMATCH at step {ln}: trampoline byte +{k} at {:#x} is not covered by a flush issued after it was written", j + k);
+                return false;
+            }
+        }
+    }
+    *watch = now;
+    FLUSHES.clear();
+    true
+}
+
 fn unhex(h: &str) -> &'static str {
     let b: Vec<u8> = (0..h.len() / 2).map(|i| u8::from_str_radix(&h[2 * i..2 * i + 2], 16).unwrap_or(b'?')).collect();
     Box::leak(String::from_utf8_lossy(&b).into_owned().into_boxed_str())
@@ -154,6 +210,7 @@ fn run(scn: &str) -> i32 {
     let mut funcs: HashMap<String, usize> = HashMap::new();
     let mut snaps: HashMap<String, [u8; 16]> = HashMap::new();
     let mut inj: Option<InjectorPP> = None;
+    let mut watches: HashMap<String, [u8; 16]> = HashMap::new();
     let maps0 = rwx_anon_count();
     let mut first: Option<usize> = None;
     for (ln, line) in scn.lines().enumerate() {
@@ -261,6 +318,50 @@ fn run(scn: &str) -> i32 {
                         println!("MISMATCH at step {ln}: call {} returned {got}, expected {exp}", w[1]);
                         return 3;
                     }
+                }
+                "watch" => {
+                    let f = funcs[w[1]];
+                    let mut s16 = [0u8; 16];
+                    std::ptr::copy_nonoverlapping(f as *const u8, s16.as_mut_ptr(), 16);
+                    watches.insert(w[1].to_string(), s16);
+                    #[allow(static_mut_refs)]
+                    FLUSHES.clear();
+                }
+                "flushed" => {
+                    let f = funcs[w[1]];
+                    let mut wt = watches.get(w[1]).copied().unwrap_or([0u8; 16]);
+                    if !check_flushed(f, &mut wt, ln) {
+                        return 3;
+                    }
+                    watches.insert(w[1].to_string(), wt);
+                    println!("step {ln}: every modified byte of {} and of its trampoline was flushed after its last write", w[1]);
+                }
+                "refake" => {
+                    let f = funcs[w[1]];
+                    let n: usize = w[2].parse().unwrap();
+                    let mut wt = watches.get(w[1]).copied().unwrap_or([0u8; 16]);
+                    for i in 0..n {
+                        let fk = match make_func(None, 0x100, 900 + i as u32, Some(f.wrapping_add((64 + 16 * i) * PAGE))) {
+                            Some(a) => a,
+                            None => {
+                                println!("step {ln}: SETUP-FAILED cannot place fake #{i}");
+                                return 9;
+                            }
+                        };
+                        inj.as_mut().unwrap()
+                            .when_called_unchecked(FuncPtr::new(f as *const (), ""))
+                            .will_execute_raw_unchecked(FuncPtr::new(fk as *const (), ""));
+                        if !check_flushed(f, &mut wt, ln) {
+                            println!("  (at re-fake #{i} of the same function)");
+                            return 3;
+                        }
+                        if call(f) != 900 + i as u64 {
+                            println!("MISMATCH at step {ln}: re-fake #{i} is not in effect");
+                            return 3;
+                        }
+                    }
+                    watches.insert(w[1].to_string(), wt);
+                    println!("step {ln}: {n} successive fakes of {}: all flushed, latest in effect", w[1]);
                 }
                 "boolsig" => {
                     let t = funcs[w[1]];
